@@ -3,6 +3,7 @@ package verifh
 import (
 	"fmt"
 	"os"
+	"strings"
 
 	otp "github.com/ja7ad/otp"
 	"pgregory.net/rapid"
@@ -102,10 +103,17 @@ func drawUsableCfg(t *rapid.T) ref.OCRACfg {
 	} else {
 		c.TimeStep = rapid.SampledFrom([]int{0, 0, -1, 60}).Draw(t, "stepUnsel")
 	}
-	if rapid.Bool().Draw(t, "rawKind") {
+	switch rapid.IntRange(0, 5).Draw(t, "rawKind") {
+	case 0, 1, 2:
 		c.Raw = rapid.SampledFrom(rawTexts).Draw(t, "rawFixed")
-	} else {
+	case 3, 4:
 		c.Raw = rapid.StringN(0, 40, 80).Draw(t, "raw")
+	default:
+		// long suite-string text: the message (text, 0x00, up to 8+128+64+128+8 bytes) crosses every plausible
+		// fixed buffer size (256, 512, 1024, 4096) at some text length
+		n := rapid.SampledFrom([]int{100, 127, 128, 175, 176, 177, 200, 247, 248, 255, 256, 257, 300, 375, 376, 503, 504, 505, 511, 512, 513, 700, 1000, 1023, 1024, 2000, 4096, 5000}).Draw(t, "rawLongLen")
+		n += rapid.IntRange(-3, 3).Draw(t, "rawLongAdj")
+		c.Raw = strings.Repeat(rapid.SampledFrom([]string{"OCRA-1:HOTP-SHA1-6:QN08-", "x", "\x00", "ab"}).Draw(t, "rawLongUnit"), n)[:n]
 	}
 	return c
 }
